@@ -1,4 +1,5 @@
 import Proofs.InterpReal
+import Proofs.InterpSpec
 /-!
 # C13 — Log-linear interpolation is the normalised weighted product of its inputs
 
@@ -106,6 +107,31 @@ theorem single_identity (E : ℚ → F) (hE : IsExp E) (m : LM W) (V : List W) (
     simp
   · unfold pOut; rw [hZi, hu]; simp
   · rw [boSame, hZi, hZi, hb]; simp
+
+/-- **Tool score = specified score.**  On components where `<unk>` occurs only as a unigram
+without back-off and all words of n-grams have unigrams, the weighted sum the tool forms from
+look-ups on universal ids equals the weighted sum of the components' back-off scores with every
+word missing from a component mapped to that component's `<unk>`. -/
+theorem spec_eq_tool (cs : Comps W) (h : ∀ p ∈ cs, UnkClean p.2) (c : List W) (w : W) :
+    usum cs c w = usumSpec cs c w :=
+  usum_eq_usumSpec cs h c w
+
+/-- **Formula with the specified component scores** (the statement of the property): the written
+model evaluates to `10^(Σᵢ λᵢ scoreᵢ(w|c)) / Σ_{v ∈ V∖{<s>}} 10^(Σᵢ λᵢ scoreᵢ(v|c))` where `scoreᵢ`
+maps every word unknown to component `i` to its `<unk>`. -/
+theorem formula_spec (E : ℚ → F) (hE : IsExp E) (cs : Comps W) (V : List W) (bos : W)
+    (wf : WellFormed cs V bos) (hu : ∀ p ∈ cs, UnkClean p.2)
+    (hZ : ∀ c, Zdirect E cs V bos c ≠ 0)
+    (w : W) (hw : ([], w) ∈ unionGrams cs) (c : List W) :
+    outScore (interpOut E cs V) c w =
+      E (usumSpec cs c w) /
+        ((V.filter (fun v => decide (v ≠ bos))).map (fun v => E (usumSpec cs c v))).sum := by
+  rw [formula E hE cs V bos wf hZ w hw c, spec_eq_tool cs hu]
+  unfold Zdirect
+  congr 2
+  apply List.map_congr_left
+  intro v _
+  rw [spec_eq_tool cs hu]
 
 /-- **Termination, equal orders.**  If all components have the same order, every union n-gram
 below that order gets a back-off record: `ReunifyBackoff` cannot hit
@@ -232,6 +258,12 @@ example : WellFormed exCs [0, 1, 2, 3, 4] 1 :=
     entries := by unfold EntriesOK; decide
     prefixClosed := by unfold PrefixClosedD; decide }
 
+example : ∀ p ∈ exCs, UnkClean p.2 := by
+  intro p hp
+  simp only [exCs, List.mem_cons, List.not_mem_nil, or_false] at hp
+  rcases hp with rfl | rfl
+  · exact ⟨by unfold UnkOnlyUnigram; decide, by decide +kernel, by unfold WordsKnown; decide⟩
+  · exact ⟨by unfold UnkOnlyUnigram; decide, by decide +kernel, by unfold WordsKnown; decide⟩
 example : [0, 1, 2, 3, 4].filter (fun w => decide (w ≠ 1)) ≠ [] := by decide
 example : ([], 3) ∈ unionGrams exCs := by decide
 example : stuck exCs = [] := equal_orders_not_stuck exCs 2 (by decide)
